@@ -173,11 +173,18 @@ func (c *Cache) Watch(
 		// Create/Get Informer
 		informer, _, err := c.informerMap.Get(ctx, gvk, uns)
 		if err != nil {
+			// Don't keep a reference to an informer that never started,
+			// or the next Watch call would skip creating it.
+			delete(c.informerReferences, gvk)
 			return fmt.Errorf("getting informer from InformerMap: %w", err)
 		}
 
 		// ensure to add all event handlers to the new informer
 		if err := c.cacheSource.handleNewInformer(informer); err != nil {
+			delete(c.informerReferences, gvk)
+			if delErr := c.informerMap.Delete(ctx, gvk); delErr != nil {
+				log.Error(delErr, "releasing informer without EventHandlers", "gvk", gvk.String())
+			}
 			return fmt.Errorf("registering EventHandlers for %v: %w", gvk, err)
 		}
 	}
